@@ -163,8 +163,18 @@ static void replaced_cases(Harness &H) {
     }
 }
 
+// high orders (products of the order-10 example bases have order 20; evaluation kernels that switch strategy with the
+// number of coefficients, e.g. split even/odd Horner chains for long arrays, are only visible here): both parities
+template <size_t... O>
+static void high_orders(Harness &H, std::index_sequence<O...>) {
+  auto pts = grid_family("nonuni", 4);
+  Grid<S> g = mkgrid<S>(pts);
+  for (Win w : {Win{0, 4}, Win{1, 3}}) (one<O>(H, "high:nonuni4", g, pts, w), ...);
+}
+
 static void run(Harness &H) {
   replaced_cases(H);
+  high_orders(H, std::index_sequence<5, 8, 11, 12, 13, 16, 20, 21>{});
   for (size_t n : {17, 32, 33, 34, 35, 64, 65, 66, 100, 129}) {
     if (!H.thorough() && n > 66) continue;
     large<0>(H, n);
